@@ -1,14 +1,14 @@
 INIT Init
 NEXT Next
-CONSTANT Registry <- RegistryFromFile
+CONSTANT Registry <- RegistryData
 INVARIANT EmitReport
-INVARIANT NamesDistinct
-INVARIANT AllResolve
-INVARIANT KindsAgree
-INVARIANT UrlInjective
-INVARIANT ChecksumInjective
-INVARIANT RemoteFileInjective
-INVARIANT SlotInjective
-INVARIANT RecordsComplete
-INVARIANT VariantsAgree
+INVARIANT I_NamesDistinct
+INVARIANT I_AllResolve
+INVARIANT I_KindsAgree
+INVARIANT I_UrlInjective
+INVARIANT I_ChecksumInjective
+INVARIANT I_RemoteFileInjective
+INVARIANT I_SlotInjective
+INVARIANT I_RecordsComplete
+INVARIANT I_VariantsAgree
 CHECK_DEADLOCK FALSE
